@@ -58,7 +58,6 @@ Qed.
 
 Theorem tbi_over_bgzf_truncation :
   forall (inflate : list N -> option (list N)) i hd fs k, tbi_ok i -> ti_header i = Some hd ->
-    ti_refs i <> [] \/ h_names hd = [] ->
     Forall (frame_good inflate) fs ->
     concat (map (frame_data inflate) fs) = w_tbi_bytes i ->
     exists n : nat,
@@ -68,11 +67,11 @@ Theorem tbi_over_bgzf_truncation :
               else if (n <? length (w_tbi_bytes i))%nat then Some (reread_tbi (tbi_no_count i))
               else Some (reread_tbi i)).
 Proof.
-  intros inflate i hd fs k Hok Hhd Hpre Hg Hcat.
+  intros inflate i hd fs k Hok Hhd Hg Hcat.
   destruct (idx_over_bgzf_truncation inflate _ read_tbi fs _ k Hg Hcat) as (j & _ & _ & _ & Hn & _ & Hr).
   cbn zeta in Hn, Hr. eexists. split; [exact Hn|]. rewrite Hr. f_equal.
   set (n := length (concat (map (frame_data inflate) (firstn j fs)))) in *.
   destruct (tbi_truncation i hd n Hok Hhd) as (T1 & T2 & T3). cbn zeta in T1, T2, T3.
-  destruct (n <? length (w_tbi_bytes (tbi_no_count i)))%nat eqn:E1; [apply T1; [lia|exact Hpre]|].
+  destruct (n <? length (w_tbi_bytes (tbi_no_count i)))%nat eqn:E1; [apply T1; lia|].
   destruct (n <? length (w_tbi_bytes i))%nat eqn:E2; [apply T2; lia|apply T3; lia].
 Qed.
